@@ -277,6 +277,46 @@ def main():
                             ctx.violation("nesting:%s:no_convergence:%s.%s" % (how, fam, op), "%s: %s" % (cid, ["%.2e" % d for d in devs]), cid)
                     for mm, msg in rec.drain():
                         ctx.violation(mm, "%s: %s" % (cid, msg), cid)
+        # ---- the same with `segments=` spaces: the selection on the refined grid must be the refinement of the selection on
+        # the coarse grid (children inherit the domain index of their parent), then P' A_fine P -> A_coarse as above
+        from checks.C11 import _children_report
+        from vlib import refmodel as R_
+        rngs = ctx.rng("nest_segments")
+        mseg = M.assign_domains(nest[0][1], rngs, 3, values=[4, 1, 6])
+        cgs = M.to_grid(mseg)
+        doms_s = sorted(set(mseg.D.tolist()))
+        for how in ("refine", "bary"):
+            fgs = cgs.refine() if how == "refine" else cgs.barycentric_refinement
+            par_ = _children_report(R_, np.asarray(cgs.vertices), np.asarray(cgs.elements).astype(int), np.asarray(fgs.vertices), np.asarray(fgs.elements).astype(int))
+            for si, seg in enumerate(([doms_s[0]], doms_s[1:]) if ctx.quick else ([doms_s[0]], doms_s[1:], [doms_s[1]], [doms_s[0], doms_s[2]])):
+                cid = "nest_segments:%s:%s:seg%s" % (nest[0][0], how, seg)
+                if not ctx.want(cid):
+                    continue
+                with ctx.guard(cid, "nesting:%s:segments" % how):
+                    cs = api.function_space(cgs, "DP", 0, segments=list(seg))
+                    fs = api.function_space(fgs, "DP", 0, segments=list(seg))
+                    csup, fsup = np.asarray(cs.support), np.asarray(fs.support)
+                    kids = np.flatnonzero(fsup)
+                    factor = 4 if how == "refine" else 6
+                    nested = bool(np.all(par_[kids] >= 0) and np.all(csup[par_[kids]]) and len(kids) == factor * int(csup.sum()))
+                    if not nested:
+                        ctx.case(cid, {"mesh": nest[0][0], "refinement": how, "segments": list(seg), "nested": False})
+                        ctx.violation("nesting:%s:segment_selection_not_nested" % how, "%s: segments=%s selects %d fine elements, %d of them with a parent outside the coarse selection (%d coarse elements)"
+                                      % (cid, list(seg), len(kids), int(np.sum(~csup[par_[kids]])), int(csup.sum())), cid)
+                        continue
+                    P = np.zeros((fs.global_dof_count, cs.global_dof_count))
+                    cl, fl = np.asarray(cs.local2global).astype(int), np.asarray(fs.local2global).astype(int)
+                    for c in kids:
+                        P[fl[c, 0], cl[par_[c], 0]] = 1.0
+                    devs = []
+                    for o in ((4, 4), (8, 8)) if ctx.quick else ladder:
+                        par = O.params(api, *o)
+                        Ac = O.dense(O.boundary(api, "laplace", "single_layer", cs, cs, cs, parameters=par))
+                        Af = O.dense(O.boundary(api, "laplace", "single_layer", fs, fs, fs, parameters=par))
+                        devs.append(O.rel(P.T @ Af @ P, Ac))
+                    ctx.case(cid, {"mesh": nest[0][0], "refinement": how, "segments": list(seg), "nested": True, "rel_dev": devs})
+                    if not np.isfinite(devs[-1]) or devs[-1] >= 1e-4 or (devs[-1] > devs[0] / 10 and devs[-1] > 1e-9):
+                        ctx.violation("nesting:%s:segments:no_convergence" % how, "%s: %s" % (cid, ["%.2e" % d for d in devs]), cid)
         ctx.lap("oracle2")
 
         # -------------------------------------------------------------- oracle 3: the library's own barycentric prolongation
